@@ -3,6 +3,7 @@ package main
 import (
 	"bytes"
 	"fmt"
+	"github.com/relex/gotils/promexporter/promext"
 	"math/rand"
 	"os"
 	"path/filepath"
@@ -153,18 +154,21 @@ type pipeHit struct {
 var routeSeq int
 
 type routeInst struct {
-	n      int
-	parts  []tmplPart
-	schema base.LogSchema
-	orch   base.Orchestrator
-	sink   base.BufferReceiverSink
-	pipes  []*pipeRec
-	hits   chan pipeHit
-	pcount *base.LogProcessCounterSet
-	mseen  []*base.LogInputCounterSet
-	alloc  *base.LogAllocator
-	recSeq int
-	fixed  bool
+	n            int
+	parts        []tmplPart
+	schema       base.LogSchema
+	orch         base.Orchestrator
+	sink         base.BufferReceiverSink
+	pipes        []*pipeRec
+	hits         chan pipeHit
+	pcount       *base.LogProcessCounterSet
+	mseen        []*base.LogInputCounterSet
+	alloc        *base.LogAllocator
+	recSeq       int
+	fixed        bool
+	mf           *promreg.MetricFactory
+	metricTuples [][][]byte
+	lastMetricOp int
 }
 
 // pooledRecord builds a record the way the parser does: the field values are substrings of one pooled backing buffer
@@ -218,6 +222,8 @@ func newRouteInst(n int, parts []tmplPart, initialIDs []string) *routeInst {
 	ri.sink = ri.orch.NewSink("verif", 1)
 	ri.alloc = base.NewLogAllocator(ri.schema, 1)
 	ri.pcount = base.NewLogProcessCounter(mf.AddOrGetPrefix("m_", nil, nil), ri.schema, ri.schema.MustCreateFieldLocators(names), []string{"o"})
+	ri.mf = mf
+	ri.lastMetricOp = -1
 	return ri
 }
 
@@ -333,7 +339,10 @@ func (r *routeComp) Impl(c Case) []string {
 			case "route metric":
 				mrec := ri.pooledRecord(o.Bytes)
 				ic := ri.pcount.SelectMetricKeySet(mrec)
+				ic.CountRecordPass(mrec)
 				ri.alloc.Release(mrec)
+				ri.metricTuples = append(ri.metricTuples, o.Bytes)
+				ri.lastMetricOp = i
 				for j, s := range ri.mseen {
 					if s == ic {
 						return fmt.Sprintf("m=%d", j)
@@ -345,6 +354,49 @@ func (r *routeComp) Impl(c Case) []string {
 				return routeDirs(int(mustAtoi(o.Strs[0])), o.Bytes)
 			}
 			return "bad-op"
+		}()
+	}
+	// the key_* label values under which the counters are exported must be the key values of the records that caused them —
+	// still so after the records have been released and their buffers reused
+	if ri != nil && ri.lastMetricOp >= 0 && ri.lastMetricOp < len(out) {
+		func() {
+			defer func() { recover() }()
+			ri.pcount.UpdateMetrics()
+			dump := promext.DumpMetrics("", true, false, ri.mf)
+			for _, tuple := range ri.metricTuples {
+				plain := true
+				for _, k := range tuple {
+					for _, b := range k {
+						if b < 0x20 || b > 0x7e || b == '"' || b == '\\' {
+							plain = false // label escaping in the text format: not worth re-implementing here
+						}
+					}
+				}
+				if !plain {
+					continue
+				}
+				found := false
+				for _, ln := range strings.Split(dump, "\n") {
+					if !strings.Contains(ln, "passed_records_total") {
+						continue
+					}
+					all := true
+					for j, k := range tuple {
+						if !strings.Contains(ln, fmt.Sprintf("key_k%d=%s", j, strconv.Quote(strings.ToValidUTF8(string(k), "\uFFFD")))) {
+							all = false
+							break
+						}
+					}
+					if all {
+						found = true
+						break
+					}
+				}
+				if !found {
+					out[ri.lastMetricOp] += " LABELS-BAD " + hx(bytes.Join(tuple, []byte{0}))
+					break
+				}
+			}
 		}()
 	}
 	return out
@@ -485,6 +537,9 @@ func (r *routeComp) Oracle(c Case, impl []string) string {
 				return fmt.Sprintf("tuple %s delivered under tag %s, its own tag is %s", tk, s.tag, want)
 			}
 		case "route metric":
+			if i := strings.Index(got, " LABELS-BAD "); i >= 0 {
+				return fmt.Sprintf("no exported counter carries the key values %q as its key_* labels (the labels of a key set changed after its records were released)", bytes.Split(unhx(got[i+12:]), []byte{0}))
+			}
 			if prev, ok := mByTuple[tk]; ok && prev != got {
 				return fmt.Sprintf("metric key set %s counted under %s before and %s now", tk, prev, got)
 			}
